@@ -341,14 +341,17 @@ func run(c *hx.Ctx, kind string, f filt, p parms, data []byte, known [][]byte, e
 	case "hex":
 		c.Op("c05.hex "+hx.Hex(data), reply)
 		c.Op("c05.spec.hex "+hx.Hex(data), reply)
+		litASCII(c, "hex", data, reply)
 	case "a85":
 		c.Op("c05.a85 "+hx.Hex(data), reply)
 		c.Op("c05.spec.a85 "+hx.Hex(data), reply)
+		litASCII(c, "a85", data, reply)
 	case "pred":
 		// data is a zlib stream; the model gets what zlib makes of it
 		inf, iok := inflate(data)
 		if iok {
 			c.Op("c05.pred "+strings.Join(p.One.P[:], "/")+" "+hx.Hex(inf), reply)
+			litPred(c, strings.Join(p.One.P[:], "/"), inf, reply)
 		}
 	default:
 		c.Op("c05.chain "+f.wire()+" "+p.wire()+" "+hx.Hex(data)+" "+inflateTable(f, p, data, known), reply)
@@ -1142,6 +1145,9 @@ func Run(c *hx.Ctx) {
 // Replay re-runs one recorded failing case on the implementation.
 func Replay(c *hx.Ctx, kase map[string]interface{}) {
 	if replayCcittBound(c, kase) {
+		return
+	}
+	if replayHeap(c, kase) {
 		return
 	}
 	if replayDict(c, kase) {
